@@ -23,6 +23,7 @@ import (
 	"sync"
 	"sync/atomic"
 	"time"
+	"unsafe"
 
 	"github.com/couchbase/nitro"
 	"verif/harness/nh"
@@ -295,10 +296,12 @@ func wrMain(args []string) int {
 	nomem := fs.Bool("nomem", false, "do not record allocator events")
 	backup := fs.String("backup", "", "directory: run StoreToDisk concurrently with the writers and restore it afterwards")
 	gunF := fs.Bool("gun", false, "start-gun scenarios: all writers run the same operations on the same keys at the same instant")
+	fs.IntVar(&wrChurnMode, "churnmode", -1, "force the churn scenario kind: bit 0 restored instance, bit 1 rolling snapshots, bit 2 delta backups")
 	churn := fs.Float64("churn", 0, "seconds per scenario of reader-vs-churn stress (instead of the round-based scenarios)")
 	fs.Parse(args)
 	if *churn > 0 {
-		nh.GuardSlots = 1000000
+		nh.GuardSlots = 4000000
+		nh.FastGuard = true // allocation rates of 100k/s: one system call per block (on Free) instead of two
 	}
 	wrNoMem = *nomem
 	t, err := tr.Create(*out)
@@ -462,7 +465,12 @@ func init() { register("wr-restore", wrRestoreMain) }
 // snapshot while writers insert and delete neighbouring keys within the current epoch as fast as they can:
 // every pointer a reader keeps across its accessor tokens (pivots, copied items, nodes under a cursor) is
 // exposed to reclamation.  Events: View (the snapshot's content), RScan / Restore, M, Closed.
+var wrChurnMode = -1 // >= 0: force the scenario kind (bit 0 restored instance, bit 1 rolling snapshots, bit 2 delta backups)
+
 func wrChurn(t *tr.W, rnd *rand.Rand, c wrCfg, secs float64, idx int) string {
+	if wrChurnMode >= 0 {
+		idx = wrChurnMode
+	}
 	memOn := int32(0)
 	nh.MemEvent = func(kind string, id int64, size int) {
 		if atomic.LoadInt32(&memOn) == 1 && !wrNoMem {
@@ -570,6 +578,14 @@ func wrChurn(t *tr.W, rnd *rand.Rand, c wrCfg, secs float64, idx int) string {
 			}
 		}
 	}()
+	// an item is handed to a callback under the scan's accessor token: the allocator must not have it back yet
+	var heldOnce sync.Once
+	held := func(what string) {
+		heldOnce.Do(func() {
+			t.Emit(tr.Ev{"e": "Fault", "msg": what + " had already been returned to the allocator (checked in the allocator's registry while the callback was running)", "scenario": idx})
+			atomic.StoreInt32(&stop, 1)
+		})
+	}
 	var rwg sync.WaitGroup
 	for r := 0; r < 3; r++ {
 		rwg.Add(1)
@@ -589,13 +605,17 @@ func wrChurn(t *tr.W, rnd *rand.Rand, c wrCfg, secs float64, idx int) string {
 					var mu sync.Mutex
 					per := map[int][][2]int{}
 					d.Visitor(s1, func(itm *nitro.Item, shard int) error {
+						if rr.Intn(16) == 0 {
+							runtime.Gosched()
+						}
+						if d.Freed(unsafe.Pointer(itm)) {
+							held("the item handed to the Visitor's callback")
+							return nil
+						}
 						kv := d.Decode(itm.Bytes())
 						mu.Lock()
 						per[shard] = append(per[shard], kv)
 						mu.Unlock()
-						if rr.Intn(16) == 0 {
-							runtime.Gosched()
-						}
 						return nil
 					}, []int{2, 4, 8, 16, 32}[rr.Intn(5)], 1+rr.Intn(3))
 					var ks []int
@@ -623,11 +643,15 @@ func wrChurn(t *tr.W, rnd *rand.Rand, c wrCfg, secs float64, idx int) string {
 						// the snapshot is not pinned: only the scan's accessor token keeps collected items from being freed)
 						var sink byte
 						err := d.StoreToDisk(c.Backup, s1, 1+rr.Intn(3), func(e *nitro.ItemEntry) {
-							b := e.Item().Bytes()
 							if rr.Intn(8) == 0 {
 								time.Sleep(30 * time.Microsecond)
 							}
-							sink += b[len(b)-1] + e.Item().Bytes()[0]
+							if d.Freed(unsafe.Pointer(e.Item())) {
+								held("the item handed to StoreToDisk's callback")
+								return
+							}
+							b := e.Item().Bytes()
+							sink += b[len(b)-1]
 						})
 						_ = sink
 						if cs.log {
